@@ -418,6 +418,14 @@ func (g *pgen) cleanupBody(nvars int) *Stmt {
 		if pf.Fail > 0 {
 			return &Stmt{Op: "fail", Kind: "panic", Variant: "panicstr", Id: g.id(), Msg: g.msg(), Next: retUnit()}
 		}
+	case 6:
+		if pf.Custom > 0 && pf.Context > 0 {
+			// a cleanup function that draws from a Custom generator whose function asks for its context: the inner T is
+			// new, its context must be live although the outer T is already cleaning up
+			leaf := &Gen{Op: "uint", Kind: "Uint64", Variant: "range", UMin: 0, UMax: 3}
+			inner := &Stmt{Op: "context", Next: &Stmt{Op: "draw", G: leaf, Next: &Stmt{Op: "ret", E: cconst(zv(1))}}}
+			return &Stmt{Op: "draw", G: &Gen{Op: "custom", Body: inner}, Next: retUnit()}
+		}
 	case 5:
 		if pf.Skip > 0 { // a cleanup function that skips the test case
 			return &Stmt{Op: "skip", Variant: pick(r, "skip", "skipnow", "skipf"), Msg: g.msg()}
@@ -454,6 +462,10 @@ func (g *pgen) repeat(depth, nvars, draws int, inCustom bool) *Stmt {
 		case 4:
 			if pf.Cleanup > 0 {
 				a = &Stmt{Op: "cleanup", Id: g.id(), A: &Stmt{Op: "log", Msg: 3, Next: retUnit()}, Next: inc}
+			} else if pf.NonFatal > 0 && pf.Skip > 0 {
+				// falsifies (non-fatally) and then skips: the machine stops, the skip does not make the step "rejected"
+				a = &Stmt{Op: "if", C: &Cond{Op: "lt", A: cconst(zv(int64(1 + r.intn(5)))), B: cvar(st)},
+					A: &Stmt{Op: "fail", Kind: "error", Variant: "errorf", Id: g.id(), Msg: g.msg(), Next: &Stmt{Op: "skip", Variant: "skip", Msg: 5}}, B: inc}
 			}
 		case 5: // a draw that can run out of retries inside the action (distinct elements of a tiny domain)
 			if pf.Rejecting > 0 {
@@ -461,6 +473,10 @@ func (g *pgen) repeat(depth, nvars, draws int, inCustom bool) *Stmt {
 				d := &Gen{Op: "sliced", MinLen: n, MaxLen: n, Fn: &Fn1{Op: "id"}, Subs: []*Gen{{Op: "int", Kind: "Int64", Variant: "range", IMin: 0, IMax: int64(n - 1 - r.intn(2))}}}
 				a = &Stmt{Op: "draw", G: d, Next: inc}
 			}
+		}
+		if a == nil && pf.NonFatal > 0 && pf.Skip > 0 && r.chance(30) {
+			a = &Stmt{Op: "draw", Raw: true, G: g.leaf(true), Next: &Stmt{Op: "if", C: &Cond{Op: "lt", A: cconst(zv(int64(1 + r.intn(5)))), B: cvar(st)},
+				A: &Stmt{Op: "fail", Kind: "error", Variant: "errorf", Id: g.id(), Msg: g.msg(), Next: &Stmt{Op: "skip", Variant: "skip", Msg: 5}}, B: inc}}
 		}
 		if a == nil {
 			a = &Stmt{Op: "draw", Raw: true, G: g.leaf(true), Next: inc}
